@@ -1,4 +1,5 @@
 import EzdxfVerif.Model.Text
+import EzdxfVerif.Model.TextCtx
 import EzdxfVerif.Gen.TextTables
 import Drivers.Proto
 open EzdxfVerif EzdxfVerif.Text Proto
@@ -14,6 +15,92 @@ def showTok : Token → String
   | .stack u l t => "K:" ++ showCps u ++ "/" ++ showCps l ++ "/" ++ showCps t
   | .space => "SP" | .nbsp => "NB" | .tab => "TAB" | .newParagraph => "NP"
   | .newColumn => "NC" | .wrapAtDimline => "WD"
+  | .props s => "P:" ++ showCps s
+
+def parseOp (s : String) : Option EdOp :=
+  match s.splitOn ":" with
+  | name :: args =>
+    match args.mapM parseCps with
+    | none => none
+    | some a =>
+      match name, a with
+      | "append", [w] => some (.append w)
+      | "font", [n, [b], [i]] => some (.font n (b = '1') (i = '1'))
+      | "scale_height", [f] => some (.scaleHeight f)
+      | "height", [f] => some (.height f)
+      | "width_factor", [f] => some (.widthFactor f)
+      | "char_tracking_factor", [f] => some (.charTrackingFactor f)
+      | "oblique", [f] => some (.oblique f)
+      | "aci", [ds] => some (.aci ds)
+      | "rgb", [ds] => some (.rgb ds)
+      | "stack", [u, l, [t]] => some (.stack u l t)
+      | "group", [w] => some (.group w)
+      | "underline", [w] => some (.underline w)
+      | "overline", [w] => some (.overline w)
+      | "strike_through", [w] => some (.strikeThrough w)
+      | "paragraph_none", [] => some (.paragraph none)
+      | "paragraph", [a] => some (.paragraph (some a))
+      | "newpar", [] => some .newParagraph
+      | "align", [[c]] => some (.align c)
+      | "const", [[d]] => some (.const d)
+      | "group_start", [] => some .groupStart
+      | "group_end", [] => some .groupEnd
+      | _, _ => none
+  | [] => none
+
+/-- rows of a bullet list: `b=c` pairs separated by "," -/
+def parseRows (s : String) : Option (List (Str × Str)) :=
+  if s.isEmpty then some [] else
+  (s.splitOn ",").mapM (fun p => match p.splitOn "=" with
+    | [b, c] => match parseCps b, parseCps c with
+      | some b, some c => some (b, c) | _, _ => none
+    | _ => none)
+
+def parseXOp (s : String) : Option XOp :=
+  match s.splitOn ":" with
+  | ["tab"] => some .tab
+  | ["nbsp"] => some .nbsp
+  | ["newcol"] => some .newColumn
+  | ["bullets", a, rows] =>
+    match (if a = "-" then some none else (parseCps a).map some), parseRows rows with
+    | some a, some rows => some (.bulletList a rows)
+    | _, _ => none
+  | _ => (parseOp s).map .op
+
+def optCps (s : String) : Option (Option Str) :=
+  if s = "-" then some none else (parseCps s).map some
+
+def parseTab (s : String) : Option Tab :=
+  match s.splitOn "=" with
+  | ["L", f] => (parseCps f).map Tab.left
+  | ["C", f] => (parseCps f).map Tab.center
+  | ["R", f] => (parseCps f).map Tab.right
+  | _ => none
+
+def showOpt (o : Option Str) : String := match o with | none => "-" | some f => showCps f
+
+def showTab : Tab → String
+  | .left f => "L=" ++ showCps f | .center f => "C=" ++ showCps f | .right f => "R=" ++ showCps f
+
+def showPara (p : ParaProps) : String :=
+  showOpt p.indent ++ ";" ++ showOpt p.left ++ ";" ++ showOpt p.right ++ ";" ++
+  (match p.align with | none => "-" | some c => toString c.toNat) ++ ";" ++ "/".intercalate (p.tabs.map showTab)
+
+def svalOps : SVal → List (Bool × Str)
+  | .init => []
+  | .abs f => [(false, f)]
+  | .mul v f => svalOps v ++ [(true, f)]
+
+def showSVal (v : SVal) : String :=
+  "+".intercalate ((svalOps v).map (fun p => (if p.1 then "M " else "A ") ++ showCps p.2))
+
+def showBool (b : Bool) : String := if b then "1" else "0"
+
+def showCtx (c : Ctx) : String :=
+  ",".intercalate [showBool c.underline, showBool c.overline, showBool c.strike, showBool c.continueStroke, toString c.aci,
+    (match c.rgb with | none => "-" | some v => toString v), toString c.align,
+    (match c.font with | none => "-" | some (n, i, b) => showCps n ++ "/" ++ showBool i ++ "/" ++ showBool b),
+    showSVal c.capHeight, showSVal c.widthFactor, showSVal c.charTracking, showOpt c.oblique, showPara c.paragraph]
 
 def step (line : String) : String :=
   match line.splitOn "|" with
@@ -21,14 +108,74 @@ def step (line : String) : String :=
     | some t => showCps (caretDecode t) | none => "bad-op"
   | ["split", n, s] => match n.toNat?, parseCps s with
     | some size, some t =>
-      if h : 2 ≤ size then ";".intercalate ((splitMText size h t).map showCps) else "bad-op size"
+      match splitMTextE size t with
+      | .ok chunks => ";".intercalate (chunks.map showCps)
+      | .error e => "err " ++ showErr e
     | _, _ => "bad-op"
+  | ["editor", s] =>
+    match (if s.isEmpty then some [] else (s.splitOn "/").mapM parseOp) with
+    | some ops =>
+      showCps (editorText ops) ++ "|" ++ showCps (editorWords ops) ++ "|" ++ (if ops.all EdOp.wf then "1" else "0")
+    | none => "bad-op"
+  | ["escape", s] => match parseCps s with
+    | some t => showCps (escapeLineEndings t) | none => "bad-op"
+  | ["fix1", s] => match parseCps s with
+    | some t => showCps (fixOneLine t) ++ "|" ++ (if isValidOneLine t then "1" else "0") | none => "bad-op"
+  | ["safe", n, s] => match n.toNat?, parseCps s with
+    | some k, some t => showCps (safeString t k) | _, _ => "bad-op"
+  | ["ptostr", i, l, r, a, ts] =>
+    match optCps i, optCps l, optCps r, optCps a, (if ts.isEmpty then some [] else (ts.splitOn "/").mapM parseTab) with
+    | some i, some l, some r, some a, some ts =>
+      let p : ParaProps := { indent := i, left := l, right := r, align := a.bind List.head?, tabs := ts }
+      showOpt p.toArgs
+    | _, _, _, _, _ => "bad-op"
+  | ["pparse", s] => match parseCps s with
+    | some t => showPara (paraParse t) | none => "bad-op"
+  | ["xeditor", s] =>
+    match (if s.isEmpty then some [] else (s.splitOn "/").mapM parseXOp) with
+    | some ops =>
+      showCps (xEditorText ops) ++ "|" ++ showCps (xEditorWordsSlow ops) ++ "|" ++
+        (if ops.all XOp.fastOk then showCps (xEditorWordsFast ops) else "-") ++ "|" ++ (if ops.all XOp.wf then "1" else "0")
+    | none => "bad-op"
+  | ["xtokens", s] =>
+    match (if s.isEmpty then some [] else (s.splitOn "/").mapM parseXOp) with
+    | some ops => ";".intercalate ((xEditorTokens ops).map showTok) ++ "|" ++ (if ops.all XOp.wfT then "1" else "0")
+    | none => "bad-op"
+  | ["lines", s] => match parseCps s with
+    | some t =>
+      let items := slowItems sp (caretDecode t)
+      ";".intercalate ((splitNone items).map showCps) ++ "|" ++ (if items.all (· != some '\n') then "1" else "0")
+    | none => "bad-op"
+  | ["ctx", s] => match parseCps s with
+    | some t => match parseC sp t with
+      | .ok ts => "ok " ++ "#".intercalate (ts.map (fun p => showTok p.1 ++ "@" ++ showCtx p.2))
+      | .error e => "err " ++ showErr e
+    | none => "bad-op"
+  | ["xctokens", s] =>
+    match (if s.isEmpty then some [] else (s.splitOn "/").mapM parseXOp) with
+    | some ops => "ok " ++ "#".intercalate ((xEditorCTokens ops).map (fun p => showTok p.1 ++ "@" ++ showCtx p.2))
+    | none => "bad-op"
+  | ["slow", s] => match parseCps s with
+    | some t => showCps (slowLoop sp (caretDecode t)) | none => "bad-op"
+  | ["export", s] => match parseCps s with
+    | some t =>
+      let tags := exportMTextContent t
+      ";".intercalate (tags.map (fun p => toString p.1 ++ ":" ++ showCps p.2)) ++ "|" ++ showCps (loadMTextContent tags)
+    | none => "bad-op"
+  | ["agree", s] => match parseCps s with
+    | some t => if agreeClass sp (caretDecode t) then "1" else "0"
+    | none => "bad-op"
   | ["fast", s] => match parseCps s with
     | some t => showCps (fastPlainMText sp t) | none => "bad-op"
   | ["ptext", s] => match parseCps s with
     | some t => showCps (plainText sp kou t) | none => "bad-op"
   | ["tokens", s] => match parseCps s with
     | some t => match parse sp t with
+      | .ok ts => "ok " ++ ";".intercalate (ts.map showTok)
+      | .error e => "err " ++ showErr e
+    | none => "bad-op"
+  | ["tokensY", s] => match parseCps s with
+    | some t => match parseY sp t with
       | .ok ts => "ok " ++ ";".intercalate (ts.map showTok)
       | .error e => "err " ++ showErr e
     | none => "bad-op"
